@@ -838,14 +838,17 @@ func run(ctx *Ctx) *Result {
 	// correspond compares the model with drc on one pair; returns the real script (nil if drc refused) and ok.
 	// verdict: "ok" (model and drc agree on a script), "disagree", "refused" (drc exits non-zero), "panic"
 	lastK2 := ""
+	lastF := map[string]string{}
 	correspond := func(stream string, c cfgCase, a, b *asaDev, devText, spocText string) (cmds []string, out string, verdict string) {
 		lastK2 = ""
+		lastF = map[string]string{}
 		out, errOut, status, pan := runDrc(devText, spocText)
 		if pan != "" {
 			res.Fail(map[string]any{"pred": "drc_panic"}, "panic: "+pan, c)
 			return nil, "", "panic"
 		}
 		f := fields(drv.Ask(encode(a, b)))
+		lastF = f
 		if status != 0 {
 			res.Count(stream + ":rejected-by-drc")
 			res.TracesVsImpl++
@@ -964,6 +967,79 @@ func run(ctx *Ctx) *Result {
 		return cmds, out, "ok"
 	}
 
+	// runScript executes a printed script (joined lines flattened) on the strict device `start`.
+	// A refused command is classified with attributes computed from the input and from the model's answer `f` for the
+	// same comparison.  Only the pinned F-C08a shape is continued (the joined line applied as one replacement), so that
+	// the other oracles still judge such cases; every other refusal stops the run (reported, and counted).
+	type refusal struct {
+		sig  map[string]any
+		what string
+	}
+	runScript := func(start *asaDev, out string, f map[string]string) (final *asaDev, states []*asaDev, refusals []refusal, stopped bool) {
+		ex := &executor{d: start.clone()}
+		type flat struct {
+			cmd  string
+			line int
+			half int
+			n    int
+		}
+		var fl []flat
+		li := 0
+		for _, line := range strings.Split(strings.TrimSuffix(out, "\n"), "\n") {
+			if line == "" {
+				continue
+			}
+			parts := strings.Split(line, "\\N ")
+			for h, c := range parts {
+				fl = append(fl, flat{c, li, h, len(parts)})
+			}
+			li++
+		}
+		for i := 0; i < len(fl); i++ {
+			err := ex.exec1(fl[i].cmd)
+			if err == nil {
+				states = append(states, ex.d.clone())
+				continue
+			}
+			reason := rejectClass(err.Error())
+			sg := map[string]any{"pred": "command_rejected_by_strict_device", "reason": reason}
+			pinned := false
+			if reason == "last_line_of_bound_acl_deleted" {
+				m1 := aclCmdRE.FindStringSubmatch(fl[i].cmd)
+				joined := false
+				if m1 != nil {
+					sg["device_acl_len"] = len(start.ACLs[m1[2]])
+					if fl[i].half == 0 && fl[i].n == 2 && i+1 < len(fl) {
+						if m2 := aclCmdRE.FindStringSubmatch(fl[i+1].cmd); m2 != nil && m2[1] == "" && m2[2] == m1[2] &&
+							m1[3] == m2[3] && stripLog(m1[4]) == stripLog(m2[4]) {
+							joined = true
+						}
+					}
+				}
+				sg["joined_readd_same_line_modulo_log"] = joined
+				// the model of the unchanged code, executed by the Lean strict device on the same comparison, is refused
+				// at this very line for this reason, and its planner counted `hyp:no-kept-line`
+				mp := strings.HasPrefix(f["exec"], fmt.Sprintf("rejected@%d:", fl[i].line)) &&
+					strings.Contains(f["exec"], "last line of bound") && strings.Contains(f["hits"], "hyp:no-kept-line")
+				sg["model_predicts"] = mp
+				pinned = joined && mp && sg["device_acl_len"] == 1
+			}
+			refusals = append(refusals, refusal{sg, fmt.Sprintf("command %d %q: %v", i, fl[i].cmd, err)})
+			if !pinned {
+				res.Count("run-stopped-at-refused-command:" + reason)
+				return ex.d, states, refusals, true
+			}
+			// the joined line as ONE replacement of the only line of the bound access list
+			res.Count("refused-command:F-C08a-shape(continued-as-one-replacement)")
+			m1 := aclCmdRE.FindStringSubmatch(fl[i].cmd)
+			m2 := aclCmdRE.FindStringSubmatch(fl[i+1].cmd)
+			ex.d.ACLs[m1[2]] = []string{m2[4]}
+			states = append(states, ex.d.clone(), ex.d.clone())
+			i++
+		}
+		return ex.d, states, refusals, false
+	}
+
 	runCase := func(c cfgCase) {
 		if c.dev == nil {
 			c.dev, c.spoc = parseDev(c.Dev), parseDev(c.Spoc)
@@ -991,7 +1067,14 @@ func run(ctx *Ctx) *Result {
 		want.Intfs = c.dev.Intfs
 		wantView := want.managedView(bindings, withRoutes)
 		uAcls, uGroups := unmanagedNames(c.dev, managed)
-		frame0 := unmanagedView(c.dev, managed, uAcls, uGroups)
+		// routes belong to the frame when the target specifies none (the one address family of F1: IPv4 without VRF)
+		routeFrame := func(d *asaDev) string {
+			if withRoutes {
+				return ""
+			}
+			return "[routes untouched]\n " + strings.Join(sortedCopy(d.Routes), "\n ") + "\n"
+		}
+		frame0 := unmanagedView(c.dev, managed, uAcls, uGroups) + routeFrame(c.dev)
 		dupGroup := false
 		{
 			seen := map[string]bool{}
@@ -1018,24 +1101,23 @@ func run(ctx *Ctx) *Result {
 			}
 		}
 		sig := func(pred string) map[string]any {
-			_ = multiUnknown
-			return map[string]any{"pred": pred, "identical_groups_on_device": dupGroup}
+			_, _ = multiUnknown, dupGroup
+			return map[string]any{"pred": pred}
 		}
 		// execute the real script
-		ex := &executor{d: c.dev.clone()}
-		states := []*asaDev{}
-		for i, cmd := range cmds {
-			if err := ex.exec1(cmd); err != nil {
-				if prop == "C08" || prop == "C01" || prop == "C10" {
-					s := sig("command_rejected_by_strict_device")
-					s["reason"] = rejectClass(err.Error())
-					res.Fail(s, fmt.Sprintf("command %d %q: %v", i, cmd, err), c)
-				}
-				return
+		firstF := lastF
+		final, states, refusals, stopped := runScript(c.dev, out, firstF)
+		for _, r := range refusals {
+			known8a := r.sig["joined_readd_same_line_modulo_log"] == true && r.sig["model_predicts"] == true && r.sig["device_acl_len"] == 1
+			if prop == "C08" || prop == "C01" || prop == "C10" || !known8a {
+				// under C07/C14 the pinned F-C08a shape is counted (see runScript) and the case goes on; any other refusal is a failure
+				// under every property
+				res.Fail(r.sig, r.what, c)
 			}
-			states = append(states, ex.d.clone())
 		}
-		final := ex.d
+		if stopped {
+			return
+		}
 		if len(res.Samples) < 3 && len(cmds) > 6 {
 			res.Sample(map[string]any{"device": c.Dev, "netspoc": c.Spoc, "script": out, "mutations": c.Note})
 		}
@@ -1044,21 +1126,93 @@ func run(ctx *Ctx) *Result {
 				res.Fail(sig("not_converged"), "after executing the script the managed part differs from the target:\n"+got+"-- want\n"+wantView, c)
 				return
 			}
-			if lo := leftovers(final); len(lo) > 0 {
-				res.Fail(sig("leftover_generated_object"), "unreferenced generated objects remain: "+strings.Join(lo, ", "), c)
-			}
+			lo := leftovers(final)
 			_, out2, v2 := correspond("F1 second compare", c, final, c.spoc, final.print(true), c.Spoc)
+			f2 := lastF
+			// F-C01b, pinned: (1) every left-over is an object-group that the INITIAL device already had and that is identical to
+			// a group referenced in the final state; (2) the second script only removes exactly these groups; (3) the model of the
+			// unchanged code predicts it: the first run adopted a device group (`grp:found-on-device`), the second comparison is
+			// outside class ISO because of a left-over group, and the model's second script only removes object-groups
+			sortedMembers := func(d *asaDev, g string) string { return strings.Join(sortedCopy(d.Groups[g]), ",") }
+			loInitialIdentical := len(lo) > 0
+			var loGroups []string
+			for _, x := range lo {
+				g, isGroup := strings.CutPrefix(x, "object-group ")
+				_, initial := c.dev.Groups[g]
+				twin := false
+				if isGroup {
+					loGroups = append(loGroups, g)
+					for _, h := range final.GOrder {
+						if h != g && final.groupReferenced(h) && sortedMembers(final, h) == sortedMembers(final, g) {
+							twin = true
+						}
+					}
+				}
+				if !isGroup || !initial || !twin {
+					loInitialIdentical = false
+				}
+			}
+			var want2 []string
+			for _, g := range loGroups {
+				want2 = append(want2, "no object-group network "+g)
+			}
+			got2 := strings.Split(strings.TrimSuffix(out2, "\n"), "\n")
+			onlyDeletes := len(lo) > 0 && strings.Join(sortedCopy(got2), "\n") == strings.Join(sortedCopy(want2), "\n")
+			modelOnlyGroups := f2["script"] != ""
+			for _, l := range strings.Split(f2["script"], "|") {
+				if !strings.HasPrefix(l, "no object-group network ") {
+					modelOnlyGroups = false
+				}
+			}
+			// how the group lost its use (from the input, the first script and the model's branch counters)
+			allUnrefInitially, allLostRefInScript := len(loGroups) > 0, len(loGroups) > 0
+			for _, g := range loGroups {
+				if c.dev.groupReferenced(g) {
+					allUnrefInitially = false
+				} else {
+					allLostRefInScript = false
+				}
+				deleted := false
+				for _, cmd := range cmds {
+					if strings.HasPrefix(cmd, "no access-list ") && contains(refsOf(cmd), g) {
+						deleted = true
+					}
+				}
+				if !deleted {
+					allLostRefInScript = false
+				}
+			}
+			mechanism := "other"
+			switch {
+			case allUnrefInitially && strings.Contains(firstF["hits"], "grp:found-on-device"):
+				mechanism = "unused_device_group_adopted_then_renamed"
+			case allLostRefInScript && strings.Contains(firstF["hits"], "line:changed-ref"):
+				mechanism = "group_equalised_for_a_line_that_is_then_replaced"
+			}
+			modelPredicts := f2["iso"] == "0:leftover-group" && modelOnlyGroups
+			sigb := func(pred string) map[string]any {
+				return map[string]any{"pred": pred, "leftovers_initial_identical_groups": loInitialIdentical,
+					"second_script_only_deletes_leftovers": onlyDeletes, "model_predicts": modelPredicts, "mechanism": mechanism}
+			}
+			if len(lo) > 0 {
+				res.Fail(sigb("leftover_generated_object"), "unreferenced generated objects remain: "+strings.Join(lo, ", ")+
+					fmt.Sprintf("\nmodel: first-run hits=%s second iso=%s second script=%s", firstF["hits"], f2["iso"], f2["script"]), c)
+			}
 			if v2 == "refused" {
 				res.Fail(sig("second_compare_failed"), "drc refuses the executed result", c)
 			} else if strings.TrimSpace(out2) != "" {
-				res.Fail(sig("second_compare_not_empty"), "second compare reports changes:\n"+out2, c)
+				res.Fail(sigb("second_compare_not_empty"), "second compare reports changes:\n"+out2, c)
 			}
 			if len(cmds) == 0 && c.dev.managedView(bindings, withRoutes) != wantView {
 				res.Fail(sig("unchanged_reported_for_different_device"), "empty script although the device is not equivalent", c)
 			}
 		}
 		if prop == "C07" {
-			if got := unmanagedView(final, managed, uAcls, uGroups); got != frame0 {
+			if got := unmanagedView(final, managed, uAcls, uGroups) + routeFrame(final); got != frame0 {
+				if routeFrame(final) != routeFrame(c.dev) {
+					res.Fail(sig("device_routes_changed_although_target_has_none"), "routes before:\n"+routeFrame(c.dev)+"after:\n"+routeFrame(final), c)
+					return
+				}
 				// classification: the only difference is the member list of object-groups that an unbound, untagged
 				// ACL of the device references and that a managed ACL references too (edited in place by equalizedGroups)
 				class := "shared_group_of_unbound_acl_edited_in_place"
@@ -1102,7 +1256,7 @@ func run(ctx *Ctx) *Result {
 						restore.Groups[g] = c.dev.Groups[g]
 					}
 				}
-				if unmanagedView(restore, managed, uAcls, uGroups) != frame0 {
+				if unmanagedView(restore, managed, uAcls, uGroups)+routeFrame(restore) != frame0 {
 					class = "other"
 				}
 				s := sig("unmanaged_content_changed")
@@ -1154,7 +1308,8 @@ func run(ctx *Ctx) *Result {
 		if prop == "C10" {
 			for k, st := range states[:max(len(states)-1, 0)] {
 				res.Count("resume-cuts")
-				cmds2, _, v2 := correspond("F1 resume", c, st, c.spoc, st.print(true), c.Spoc)
+				_, outR, v2 := correspond("F1 resume", c, st, c.spoc, st.print(true), c.Spoc)
+				fR := lastF
 				if firstK2 == "1" {
 					// is class K2 closed under executing a prefix of its own script?  (measured; see resume_closure_counterexample)
 					res.Count("resume-cut-of-a-K2-run:k2=" + lastK2)
@@ -1169,19 +1324,15 @@ func run(ctx *Ctx) *Result {
 					res.Fail(sig("resume_state_not_accepted"), fmt.Sprintf("cut after %d commands: drc rejects the intermediate device", k+1), c)
 					continue
 				}
-				ex2 := &executor{d: st.clone()}
-				bad := false
-				for i, cmd := range cmds2 {
-					if err := ex2.exec1(cmd); err != nil {
-						res.Fail(sig("resume_command_rejected"), fmt.Sprintf("cut after %d commands: second script command %d %q: %v", k+1, i, cmd, err), c)
-						bad = true
-						break
-					}
+				final2, _, refusals2, stopped2 := runScript(st, outR, fR)
+				for _, r := range refusals2 {
+					r.sig["pred"] = "resume_command_rejected"
+					res.Fail(r.sig, fmt.Sprintf("cut after %d commands: second script %s", k+1, r.what), c)
 				}
-				if bad {
+				if stopped2 {
 					continue
 				}
-				if got := ex2.d.managedView(bindings, withRoutes); got != wantView {
+				if got := final2.managedView(bindings, withRoutes); got != wantView {
 					res.Fail(sig("resume_not_converged"), fmt.Sprintf("cut after %d commands: second run ends in\n%s-- want\n%s", k+1, got, wantView), c)
 				}
 			}
